@@ -42,7 +42,9 @@ VARIANTS = {
     "fuzz": {"cxx": "clang++-14", "flags": ["-O1", "-fsanitize=fuzzer-no-link,address,undefined",
                                              "-fno-sanitize=object-size,function,vptr", "-fno-sanitize-recover=all",
                                              "-fsanitize-recover=signed-integer-overflow,shift-base,nonnull-attribute,float-cast-overflow"]},
-    "cov": {"cxx": "g++", "flags": ["-O0", "--coverage"]},
+    # anchor-coverage measurement (tools/anchor_cov.py): ASan kept so harnesses that call __lsan/__asan hooks link
+    "cov": {"cxx": "g++", "flags": ["-O0", "--coverage", "-fsanitize=address,undefined", "-fno-sanitize-recover=all",
+                                    "-fsanitize-recover=signed-integer-overflow,shift-base,nonnull-attribute"]},
 }
 
 
@@ -115,8 +117,14 @@ def _evict(kind, keep):
                 pass
 
 
+def _force(variant):
+    f = os.environ.get("VERIF_FORCE_VARIANT")
+    return f if (f and variant == "asan") else variant
+
+
 def build_lib(variant):
     """Returns path to libphosg.a for this variant built from the current tree."""
+    variant = _force(variant)
     v = VARIANTS[variant]
     th = tree_hash()
     key = _sha(th, variant, " ".join(v["flags"] + COMMON), v["cxx"])
@@ -128,7 +136,7 @@ def build_lib(variant):
     with _Lock(d + ".lock"):
         if os.path.exists(lib):
             return lib
-        tmp = d + ".tmp%d" % os.getpid()
+        tmp = d + ".tmp%d" % os.getpid() if variant != "cov" else d
         shutil.rmtree(tmp, ignore_errors=True)
         os.makedirs(tmp)
 
@@ -143,10 +151,12 @@ def build_lib(variant):
             if variant != "cov":
                 for o in objs:
                     os.unlink(o)
-            shutil.rmtree(d, ignore_errors=True)
-            os.rename(tmp, d)
+            if tmp != d:
+                shutil.rmtree(d, ignore_errors=True)
+                os.rename(tmp, d)
         finally:
-            shutil.rmtree(tmp, ignore_errors=True)
+            if tmp != d:
+                shutil.rmtree(tmp, ignore_errors=True)
         _evict("lib", 8)
     return lib
 
@@ -154,6 +164,7 @@ def build_lib(variant):
 def build_harness(name, variant, extra_cxx=(), extra_link=(), sources=None, link_lib=True, compiler=None):
     """Compile /verif/harness/<name>.cc (plus extra sources) against the current tree.
     Returns path to the binary."""
+    variant = _force(variant)
     v = VARIANTS[variant]
     cxx = compiler or v["cxx"]
     hdir = os.path.join(VERIF, "harness")
@@ -175,7 +186,7 @@ def build_harness(name, variant, extra_cxx=(), extra_link=(), sources=None, link
     with _Lock(d + ".lock"):
         if os.path.exists(exe):
             return exe
-        tmp = d + ".tmp%d" % os.getpid()
+        tmp = d + ".tmp%d" % os.getpid() if variant != "cov" else d
         shutil.rmtree(tmp, ignore_errors=True)
         os.makedirs(tmp)
         try:
@@ -184,11 +195,13 @@ def build_harness(name, variant, extra_cxx=(), extra_link=(), sources=None, link
             if lib:
                 cmd += [lib]
             cmd += ["-lz", "-lpthread"] + list(extra_link)
-            _run(cmd)
-            shutil.rmtree(d, ignore_errors=True)
-            os.rename(tmp, d)
+            _run(cmd, cwd=tmp)
+            if tmp != d:
+                shutil.rmtree(d, ignore_errors=True)
+                os.rename(tmp, d)
         finally:
-            shutil.rmtree(tmp, ignore_errors=True)
+            if tmp != d:
+                shutil.rmtree(tmp, ignore_errors=True)
         _evict("bin", 80)
     return exe
 
